@@ -15,7 +15,10 @@ import (
 
 const prc = 1 << partBits
 
-var logShapes = []string{"none", "none", "none", "none", "order", "secret", "cudnew", "sync-order", "bad-order", "none"}
+var logShapes = []string{"none", "none", "none", "none", "order", "secret", "cudnew", "sync-order", "unknown", "none"}
+
+// class f4: events that are not valid and still carry what the builder was given (C02-F4)
+var f4Shapes = []string{"bad-order", "bad-secret", "bad-field", "none", "order", "unknown"}
 var allShapes = append(append([]string{}, validShapes...), invalidShapes...)
 var backends = []string{"mem", "cached-mem", "bbolt", "mem", "cached-bbolt", "mem"}
 
@@ -128,8 +131,11 @@ func genLog(r *kit.Rng, class string, tier string) *logScenario {
 	}
 	for _, o := range offs {
 		shape := kit.Pick(r, logShapes)
-		if class == "dense" {
+		switch class {
+		case "dense":
 			shape = "none"
+		case "f4":
+			shape = kit.Pick(r, f4Shapes)
 		}
 		ls.Events = append(ls.Events, eventSpec{Shape: shape, Seed: r.U64() % 100000, Part: part, POff: base + o, WS: ws, WOff: wbase + o + wshift})
 	}
@@ -327,6 +333,8 @@ func Generate(seed uint64, n int, tier string, corpusDir string, shard int, out 
 			sc.Log = genLog(cr, "f9", tier)
 		case m == 6:
 			sc.Log = genLog(cr, "f10", tier)
+		case m == 4 && (i/10)%2 == 0:
+			sc.Log = genLog(cr, "f4", tier)
 		case m >= 7:
 			sc.Codec = genCodec(cr)
 		default:
